@@ -86,6 +86,22 @@ def starcall(E, st, args, kw):
     f, plain, star, dstar, kwargs = args
     if isinstance(f, (VOpaque, VObj)):
         return user_call(E, st, f, list(plain) + [("*", s) for s in star] + [("**", d) for d in dstar], kwargs)
+    if isinstance(f, VFunc) and len(star) == 1 and not dstar and isinstance(star[0], VOpaque):
+        # a repository function called with f(a, .., *seq) where seq is an arbitrary (peer-chosen) sequence: the sequence may have any length, so EVERY
+        # remaining positional parameter may receive an arbitrary value (seq[i]); a sequence of the wrong length is one of the ways the call raises TypeError
+        import ast as _ast
+        from pyvc.engine import Module
+        modq, fq = E.split_func(f.qname)
+        mod = Module.load(modq)
+        if fq not in mod.funcs:
+            raise Unsupported("star call of %r" % (f,))
+        fnode = mod.funcs[fq]
+        params = [x.arg for x in fnode.args.posonlyargs + fnode.args.args]
+        free = [n for n in params[len(plain):] if n not in kwargs]
+        extra = [VOpaque(u_getitem(star[0].e, box_int(z3.IntVal(i)))) for i in range(len(free))]
+        out = list(E.call(st.fork(), f, list(plain) + extra, kwargs, kw.get("node")))
+        out.append(may_raise(E, st, "star-call"))
+        return out
     raise Unsupported("star call of %r" % (f,))
 
 
